@@ -58,19 +58,20 @@ class _Clock(object):
 
 DATE_LINES = ['DeletionDate=2020-01-01T00:00:00\n', '', 'DeletionDate=garbage\n', 'DeletionDate=2020-01-01T00:00:00\nDeletionDate=1990-01-01T00:00:00\n',
               'DeletionDate=1990-01-01T00:00:00\nDeletionDate=2020-01-01T00:00:00\n', ' DeletionDate=1990-01-01T00:00:00\n',
-              'DeletionDate=2020-01-01T00:00:00 \n', 'deletiondate=1990-01-01T00:00:00\n']
-DATE_FIRST = ['2020-01-01T00:00:00', None, None, '2020-01-01T00:00:00', '1990-01-01T00:00:00', None, None, None]
+              'DeletionDate=2020-01-01T00:00:00 \n', 'deletiondate=1990-01-01T00:00:00\n',
+              'DeletionDate=garbage\nDeletionDate=1990-01-01T00:00:00\n', 'DeletionDate=\nDeletionDate=1990-01-01T00:00:00\n']
+DATE_FIRST = ['2020-01-01T00:00:00', None, None, '2020-01-01T00:00:00', '1990-01-01T00:00:00', None, None, None, None, None]
 
 
 def k_ok_to_delete(has_days: bool, days: int, which: int, now_off: int) -> str:
     """
-    pre: 0 <= days <= 400 and 0 <= which < 8
+    pre: 0 <= days <= 400 and 0 <= which < 10
     pre: -3 <= now_off <= 3
     post: _ == ''
     """
     rt.begin()
     from trashcli.empty.delete_according_date import DeleteAccordingDate
-    w = rt.sel(which, 8)
+    w = rt.sel(which, 10)
     text = '[Trash Info]\nPath=a\n' + DATE_LINES[w]
     first = DATE_FIRST[w]
     base = datetime.datetime(2020, 1, 1)
@@ -93,7 +94,7 @@ NOW = '2020-06-15T12:00:00'
 NOWDT = datetime.datetime(2020, 6, 15, 12, 0, 0)
 DAYS = [None, 0, 1, 7, 400]
 SLOTS = ['limit-1s', 'limit', 'limit+1s', 'far-past', 'future', 'missing', 'malformed', 'dup-old-new', 'dup-new-old',
-         'now', 'feb29', 'bad-day']
+         'now', 'feb29', 'bad-day', 'malformed-then-old', 'empty-then-old']
 TDS = [('/h/.local/share/Trash', lambda p: p), ('/v/.Trash/1000', lambda p: p[3:]), ('/v/.Trash-1000', lambda p: p[3:])]
 CLOCKS = ['clock', 'TRASH_DATE', 'invalid-TRASH_DATE']
 
@@ -132,6 +133,10 @@ def slot_info(slot, days, path_value):
         return head + 'DeletionDate=2016-02-29T23:59:59\n', True
     if s == 'bad-day':
         return head + 'DeletionDate=2019-02-29T00:00:00\n', False
+    if s == 'malformed-then-old':
+        return head + 'DeletionDate=2020-13-45T99:99:99\nDeletionDate=1990-01-01T00:00:00\n', False
+    if s == 'empty-then-old':
+        return head + 'DeletionDate=\nDeletionDate=1990-01-01T00:00:00\n', False
     raise ValueError(s)
 
 
@@ -210,19 +215,19 @@ def _case(days, s0, s1, s2, clock, kind):
 def w_main(days: int, s0: int, s1: int, s2: int, clock: int, kind: int) -> str:
     """
     pre: PARTITION is None or s0 == PARTITION
-    pre: 0 <= days < 5 and 0 <= s0 < 12 and 0 <= s1 < 12 and 0 <= s2 < 12 and 0 <= clock < 3 and 0 <= kind < 2
+    pre: 0 <= days < 5 and 0 <= s0 < 14 and 0 <= s1 < 14 and 0 <= s2 < 14 and 0 <= clock < 3 and 0 <= kind < 2
     post: _ == ''
     """
-    return _case(rt.sel(days, 5), rt.sel(s0, 12), rt.sel(s1, 12), rt.sel(s2, 12), rt.sel(clock, 3), rt.of([0, 2], kind))
+    return _case(rt.sel(days, 5), rt.sel(s0, 14), rt.sel(s1, 14), rt.sel(s2, 14), rt.sel(clock, 3), rt.of([0, 2], kind))
 
 
 def w_quick(days: int, s0: int, clock: int, kind: int) -> str:
     """
-    pre: 0 <= days < 5 and 0 <= s0 < 12 and 0 <= clock < 3 and 0 <= kind < 6
+    pre: 0 <= days < 5 and 0 <= s0 < 14 and 0 <= clock < 3 and 0 <= kind < 6
     post: _ == ''
     """
-    s = rt.sel(s0, 12)
-    return _case(rt.sel(days, 5), s, (s + 1) % 12, (s + 5) % 12, rt.sel(clock, 3), rt.sel(kind, 6))
+    s = rt.sel(s0, 14)
+    return _case(rt.sel(days, 5), s, (s + 1) % 14, (s + 5) % 14, rt.sel(clock, 3), rt.sel(kind, 6))
 
 
 def obligations(tier):
@@ -232,13 +237,13 @@ def obligations(tier):
            bounds='0<=DAYS<=40000; now, date: any second in [1970, 2096]', outside='sub-second, time zones'),
         CH('K_ok_to_delete', MOD, 'k_ok_to_delete', timeout=240, engine='K', regime='traced',
            encodes=['DeleteAccordingDate.ok_to_delete', 'parse_deletion_date', 'ParseTrashInfo.parse_trashinfo', 'older_than'],
-           bounds='DAYS absent or 0..400 symbolic; 8 DeletionDate line shapes; now within +-3 s of the limit (symbolic)',
+           bounds='DAYS absent or 0..400 symbolic; 10 DeletionDate line shapes; now within +-3 s of the limit (symbolic)',
            stubs=['content reader', 'clock']),
         CH('W_slots_quick', MOD, 'w_quick', timeout=600, engine='W', regime='selector', encodes=K.EMPTY_FUNCS, stubs=K.STUBS,
-           bounds='5 DAYS x 12 date slots (x2 derived neighbours) x 3 clock sources x 6 kinds'),
+           bounds='5 DAYS x 14 date slots (x2 derived neighbours) x 3 clock sources x 6 kinds'),
     ]
     if tier == 'thorough':
-        obs.append(CH('W_slots_product', MOD, 'w_main', timeout=3000, partitions=list(range(12)), twin=False, engine='W',
+        obs.append(CH('W_slots_product', MOD, 'w_main', timeout=3000, partitions=list(range(14)), twin=False, engine='W',
                       regime='selector', encodes=K.EMPTY_FUNCS, stubs=K.STUBS,
-                      bounds='5 DAYS x 12^3 date slots over 3 trash dirs x 3 clock sources x 2 kinds'))
+                      bounds='5 DAYS x 14^3 date slots over 3 trash dirs x 3 clock sources x 2 kinds'))
     return obs
